@@ -446,7 +446,7 @@ impl<'a> NodeData<'a> {
 }
 
 pub(crate) struct Branch<'a> {
-    key: Bytes<'a>,
+    pub(crate) key: Bytes<'a>,
     pub(crate) page: PageID,
 }
 
